@@ -181,7 +181,15 @@ SemOfQ(qn) == CHOOSE s \in Sems : SemQ(s) = qn
            fiber_manager_get_mpmc_node |-> {"wait_mpmc"},
            fiber_manager_wake_from_mpmc_queue |-> {"wake_mpmc"},
            mpmc_fifo_trypop |-> {"wake_mpmc"},
-           mpmc_fifo_push |-> {"maintenance"}
+           mpmc_fifo_push |-> {"maintenance"},
+           \* position pins for the scheduler's deque calls and the idle poll (core functions the
+           \* template leaves unconstrained): without them every idle kernel thread may be anywhere
+           \* in its polling loop at each of its (read-only) events and trace validation of
+           \* 3-thread runs explodes combinatorially
+           wsd_work_stealing_deque_size |-> {"load_balance", "sched_next"},
+           wsd_work_stealing_deque_steal |-> {"load_balance"},
+           wsd_work_stealing_deque_pop_bottom |-> {"sched_next"},
+           fiber_poll_events_internal |-> {"mf"}
 #! MONFIELDS
 , sposts |-> [s \in Sems |-> 0], ssucc |-> [s \in Sems |-> 0], sinprog |-> [s \in Sems |-> 0]
 #! MONCASES
